@@ -3,6 +3,7 @@ package main
 import (
 	"fmt"
 	"math/rand"
+	"runtime"
 	"strings"
 	"sync"
 	"time"
@@ -558,6 +559,29 @@ func c12Readers(args []string) int {
 		for _, h := range hand {
 			idr.RemoveAndReleaseTree(h)
 		}
+	}
+	// acquisitions racing on many goroutines: every acquisition must carry an ID no other acquisition in the process
+	// carries (the tracker sees every get under its own lock), and no node may be handed to two owners
+	if !hungOnce {
+		old := runtime.GOMAXPROCS(8)
+		var wg sync.WaitGroup
+		for g := 0; g < 8; g++ {
+			wg.Add(1)
+			go func(g int) {
+				defer wg.Done()
+				for k := 0; k < 4000*nmut; k++ {
+					root := idr.CreateNode(idr.ElementNode, "r")
+					idr.AddChild(root, idr.CreateNode(idr.TextNode, "t"))
+					if k%3 == 0 {
+						idr.AddChild(root, idr.CreateNode(idr.ElementNode, "e"))
+					}
+					idr.RemoveAndReleaseTree(root)
+				}
+			}(g)
+		}
+		wg.Wait()
+		runtime.GOMAXPROCS(old)
+		sum.eval(true, M{"racing": 8})
 	}
 	for i, e := range pt.errs {
 		if i < 20 {
